@@ -122,7 +122,8 @@ def gen_nc_array(rng, pool, stats, fmt, dims=None, new_dims=0):
 
 def gen_pool(rng, fmt, n=None, avoid=()):
     pool = {}
-    for d in rng.sample([x for x in DIMPOOL if x not in avoid], n if n is not None else rng.randint(1, 3)):
+    free = [x for x in DIMPOOL if x not in avoid]
+    for d in rng.sample(free, min(len(free), n if n is not None else rng.randint(1, 3))):
         k = rng.choice(['i', 'f', 'O'] if fmt == 'NETCDF4' else ['i', 'f'])
         pool[d] = (k, rand_labels(rng, rng.randint(1, 4), k, rng.choice(['inc', 'dec', 'shuf'])), nc_meta(rng, allow_list=False) if rng.random() < 0.4 else {})
     return pool
